@@ -419,6 +419,13 @@ func (g *FuncGen) builtin(b *ssa.Builtin, cc *ssa.CallCommon, res ssa.Value, in 
 		return nil
 	case "print", "println":
 		return nil
+	case "close":
+		// closing a channel does not change the closer's modelled state; ghost statements can name it "chanclose"
+		g.c.note("channel close: no effect on the closer's state (concurrency not modelled)")
+		g.ghostState = g.cur
+		g.ghostAtUncontracted("chanclose", []Val{g.value(cc.Args[0])}, nil)
+		g.ghostState = nil
+		return nil
 	case "min", "max":
 		a := g.value(cc.Args[0])
 		for i := 1; i < len(cc.Args); i++ {
@@ -1398,7 +1405,9 @@ func (g *FuncGen) instrWrites(in ssa.Instruction) (classes []string, all bool) {
 			}
 		}
 		return classes, all
-	case *ssa.Send, *ssa.Select:
+	case *ssa.Send:
+		return nil, false
+	case *ssa.Select:
 		return nil, true
 	}
 	return nil, false
